@@ -27,6 +27,9 @@ impl<L: Language, N: Analysis<L>> EGraph<L, N> {
             assert_eq!(pai.elem.id, pai.proof.r.id);
         }
 
+        #[cfg(slotted_egraphs_verif)]
+        crate::verif::uf_write(i.0, &pai.elem);
+
         let mut lock = self.unionfind.borrow_mut();
         if lock.len() == i.0 {
             lock.push(pai);
